@@ -159,6 +159,7 @@ static void gen_roundtrip(G &g, bool isal) {
     for (int o = 0; o < nobj; o++) {
         Json po = put_op(g, o, 0, c);
         if (bigfrag && o == 0) po.set("len", (i64) ((u64) c.k * (u64) g.data.range(800 * 1024, 1200 * 1024) - (u64) g.data.range(0, 5)));
+        if (bigfrag && o == 0 && c.k <= 3 && g.data.chance(1, 4)) po.set("len", (i64) ((u64) c.k * (u64) g.data.range(4096 * 1024, 4500 * 1024) - (u64) g.data.range(0, 5)));
         g.ops.push(po);
         int gets = (int) g.plan.range(1, 3);
         for (int i = 0; i < gets; i++) {
@@ -175,6 +176,7 @@ static void gen_roundtrip(G &g, bool isal) {
                     Json r2 = mk("REPAIR"); r2.set("obj", 9).set("slot", 1).set("dest", dest).set("oal", 16).set("dl", delivery(g, bs, bc.n(), false)); g.ops.push(r2);
                 }
             }
+            if (!free_run && g.plan.chance(1, 15)) { static const int ids[] = {BE_NULL, BE_XOR, BE_RS, BE_IV, BE_IC, 1, 2, 5, 8}; Json a = mk("AVAIL"); a.set("id", g.plan.chance(1, 2) ? c.be : ids[g.plan.below(9)]); g.ops.push(a); }
             Json j = mk("GET"); j.set("obj", o).set("slot", 0).set("force", g.faults.chance(1, 3) ? 1 : 0).set("dl", delivery(g, s, c.n(), !free_run));
             // the writer's switch is a property of the writer: a reader runs with whatever its own environment holds
             if (g.faults.chance(1, 10)) { static const char *ev[] = {"1", "0", "yes", ""}; if (g.faults.chance(1, 4)) j.set("env", Json()); else j.set("env", ev[g.faults.below(4)]); }
@@ -252,6 +254,7 @@ static void gen_c02(G &g) {
         }
         if (sweep && i == 0) s = sweep_mask;
         if (big3 && i < 2) s = full(n) & ~random_subset(r, c.k, 3);
+        if (r.chance(1, 10)) { static const int ids[] = {BE_NULL, BE_XOR, BE_RS, BE_IV, BE_IC, 1, 2, 5, 8}; Json a = mk("AVAIL"); a.set("id", r.chance(1, 2) ? c.be : ids[r.below(9)]); g.ops.push(a); }
         if (r.chance(1, 2)) {
             Json j = mk("GET"); j.set("obj", 0).set("slot", 0).set("force", r.chance(1, 4) ? 1 : 0).set("dl", delivery(g, s, n, true));
             maybe_slack(r, j, 16);
@@ -349,6 +352,23 @@ static void gen_c05(G &g, u64 base_seed) {
         Json r = mk("REPAIR"); r.set("obj", 0).set("slot", 0).set("dest", d).set("oal", pick_al(g.faults)).set("dl", delivery(g, s, c.n(), g.faults.chance(1, 2))); g.ops.push(r);
     }
     { Json r = mk("REPAIR"); r.set("obj", 0).set("slot", 0).set("dest", (int) g.plan.below(c.n())).set("oal", 16).set("dl", delivery(g, s, c.n(), false)); g.ops.push(r); }
+    if (g.world.chance(1, 3) && xs.lost) {
+        // a successor: the instance is destroyed, one of another table takes its place (on the un-sanitized build: its very
+        // heap address) and loses the same fragments - nothing remembered about the dead instance may be used for it
+        for (int tries = 0; tries < 30; tries++) {
+            Cfg b = xor_shape_index((int) g.world.below(XOR_GOLDEN_N));
+            if (b.k == c.k && b.m == c.m && b.hd == c.hd) continue;
+            if ((xs.lost >> b.n()) != 0 || __builtin_popcountll(xs.lost) >= b.hd) continue;
+            b.ct = c.ct;
+            g.ops.push(mk("DESTROY").set("slot", 0));
+            g.ops.push(create_op(0, b));
+            Json pb = put_op(g, 0, 0, b); pb.set("len", (i64) g.data.range(1, 3000)); g.ops.push(pb);
+            u64 sb = full(b.n()) & ~xs.lost;
+            Json gj = mk("GET"); gj.set("obj", 0).set("slot", 0).set("force", 0).set("dl", delivery(g, sb, b.n(), false)); g.ops.push(gj);
+            for (int d = 0; d < b.n(); d++) if ((xs.lost >> d) & 1) { Json r = mk("REPAIR"); r.set("obj", 0).set("slot", 0).set("dest", d).set("oal", 16).set("dl", delivery(g, sb, b.n(), false)); g.ops.push(r); break; }
+            break;
+        }
+    }
 }
 
 // ------------------------------------------------------------------ C06 (fragments_needed)
@@ -362,6 +382,9 @@ static void gen_c06(G &g, bool isal) {
     g.ops.push(create_op(0, c));
     Json p = put_op(g, 0, 0, c); p.set("len", (i64) g.data.range(1, 600)); g.ops.push(p);
     int n = c.n(), tol = tolerance(c);
+    // flat-XOR tables exist in pairs (k, m, 3) / (k, m, 4): the sibling is asked the same question right after (or before)
+    bool sib = false; Cfg sc = c;
+    if (c.be == BE_XOR) { sc.hd = c.hd == 3 ? 4 : 3; if (ref::xor_golden(sc.k, sc.m, sc.hd) && g.world.chance(1, 2)) { sib = true; g.ops.push(create_op(1, sc)); Json p1 = put_op(g, 1, 1, sc); p1.set("len", p["len"].num()); g.ops.push(p1); } }
     int q = (int) g.plan.range(8, 30);
     for (int i = 0; i < q; i++) {
         Rng &r = g.faults;
@@ -383,7 +406,22 @@ static void gen_c06(G &g, bool isal) {
             Json pd = Json::obj(); pd.set("seed", (i64) (r.next() >> 20)).set("R", r.chance(2, 3) ? lens[r.below(12)] : 0).set("X", r.chance(1, 2) ? lens[r.below(12)] : 0).set("front", (int) r.below(2));
             j.set("pad", pd);
         }
+        if (sib && tot <= std::min(tol, tolerance(sc)) && r.chance(1, 2)) {
+            Json j2 = j; j2.set("slot", 1).set("obj", 1);
+            if (r.chance(1, 2)) { g.ops.push(j2); g.ops.push(j); } else { g.ops.push(j); g.ops.push(j2); }
+            continue;
+        }
         g.ops.push(j);
+    }
+    if (c.be != BE_XOR && g.world.chance(1, 6)) {
+        // create / ask / destroy cycles over different shapes with one and the same question: an answer may not outlive its instance
+        for (int z = 0; z < 14; z++) {
+            Cfg b = rs_shape(g.world, c.be); if (b.m < 2) b.m = 2; if (b.k < 2) b.k = 2; if (b.k + b.m > 32) b.k = 32 - b.m; b.hd = b.m; b.ct = 1;
+            g.ops.push(mk("DESTROY").set("slot", 0));
+            g.ops.push(create_op(0, b));
+            Json pb = put_op(g, 0, 0, b); pb.set("len", (i64) g.data.range(1, 300)); g.ops.push(pb);
+            Json j = mk("PLAN"); j.set("slot", 0).set("obj", 0).set("confirm", z & 1).set("R", Json::ints({0})).set("X", Json::ints({1})); g.ops.push(j);
+        }
     }
 }
 
@@ -520,6 +558,10 @@ static void gen_c10(G &g) {
         for (int i = 0; i < rounds; i++) {
             Rng &r = g.faults;
             if (r.chance(1, 4)) { Json ev = mk("ENV"); const char *e3 = r.chance(1, 4) ? long_envs[r.below(12)] : envs[r.below(10)]; if (e3) ev.set("val", e3); g.ops.push(ev); }
+            if (r.chance(1, 12)) {   // a different variable whose name contains the switch's name
+                static const char *names[] = {"LIBERASURECODE_WRITE_LEGACY_CRC_UNTIL", "LIBERASURECODE_WRITE_LEGACY_CRCS", "XLIBERASURECODE_WRITE_LEGACY_CRC", "LIBERASURECODE_WRITE_LEGACY_CR", "LIBERASURECODE_WRITE_LEGACY_CRC2"};
+                Json ev = mk("ENV"); ev.set("name", names[r.below(5)]); if (r.chance(4, 5)) ev.set("val", r.chance(1, 2) ? "1" : "yes"); g.ops.push(ev);
+            }
             unsigned x = (unsigned) r.below(10);
             int dev = (int) r.below(n);
             if (x < 7) {
@@ -611,7 +653,8 @@ static void gen_c12(G &g) {
         else if (x < 44) {
             u32 bv = 0x010000; if (rc.be == BE_IV || rc.be == BE_IC) bv = (2u << 16) | (13u << 8);
             unsigned y = (unsigned) r.below(4); i64 v;
-            if (y == 0) v = (i64) bv + r.range(-1, 1);
+            if (r.chance(1, 6)) v = 0;   // "no version": written before backends were versioned?
+            else if (y == 0) v = (i64) bv + r.range(-1, 1);
             else if (y == 1) v = (i64) (bv ^ (1u << r.below(32)));                      // one bit anywhere in the word
             else if (y == 2) v = (i64) (bv | ((u32) r.range(1, 255) << 24));           // same release, other top byte
             else v = (i64) (u32) r.next();
